@@ -275,8 +275,9 @@ def position_monitor(rec, o, vals, w, text_of):
                     % (name, line, col, ltext[col:col + len(name) + 4]), line_text=ltext, **w)
     elif (re.match(r'\w', ltext[col + len(name):col + len(name) + 1] or ' ')
           or (col > 0 and re.match(r'\w', ltext[col - 1]))) and name.isidentifier():
-        rec.violate('c17:not_whole_token', 'name %r at %s:%s is only part of a token in %r'
-                    % (name, line, col, ltext), **w)
+        # e.g. `1e`: parso's error recovery splits it into a number and a name.  The statement
+        # only asks that the text at the position is the name: recorded, not charged.
+        rec.ev('c17:name_adjacent_to_word_characters_recorded')
     start = vals.get('get_definition_start_position')
     end = vals.get('get_definition_end_position')
     if start is not None and end is not None:
